@@ -13,6 +13,7 @@ import (
 	"fmt"
 	"go/token"
 	"go/types"
+	"math/big"
 	"runtime"
 	"runtime/debug"
 	"slices"
@@ -169,6 +170,30 @@ func derefPtr(x value, what string) *value {
 	return p
 }
 
+// concretize turns a symbolic non-negative integer into a concrete one by
+// forking over 0..limit (values beyond the limit are left symbolic-negative or
+// too large: the caller's bounds check then raises the run-time panic, or the
+// path ends as bound-exceeded).
+func (fr *frame) concretize(v value, limit int64, what string) value {
+	s, ok := v.(symInt)
+	if !ok {
+		return v
+	}
+	for k := int64(0); k <= limit; k++ {
+		if fr.i.decide(Eq(s.T, IntConst64(k))) {
+			return concreteInt(big.NewInt(k), s.K)
+		}
+	}
+	if fr.i.decide(Lt(s.T, IntConst64(0))) {
+		return concreteInt(big.NewInt(-1), types.Int)
+	}
+	if limit < 256 {
+		// larger than the container: any such value fails the bounds check
+		return concreteInt(big.NewInt(limit+1), s.K)
+	}
+	panic(abortPath{"bound-exceeded", what + ": symbolic size above 256"})
+}
+
 func (fr *frame) index(idx value, n int) int {
 	if s, ok := idx.(symInt); ok {
 		// symbolic index into a concrete-length container: fork over the
@@ -227,7 +252,25 @@ func visitInstr(fr *frame, instr ssa.Instruction) continuation {
 		fr.env[instr] = fr.get(instr.Tuple).(tuple)[instr.Index]
 
 	case *ssa.Slice:
-		fr.env[instr] = slice(fr.get(instr.X), fr.get(instr.Low), fr.get(instr.High), fr.get(instr.Max))
+		x := fr.get(instr.X)
+		lo, hi, mx := fr.get(instr.Low), fr.get(instr.High), fr.get(instr.Max)
+		if isSymScalar(lo) || isSymScalar(hi) || isSymScalar(mx) {
+			// symbolic bounds of a concrete-length container: fork over the
+			// (few) possible values; out-of-range values end in the run-time panic
+			limit := int64(0)
+			switch xv := x.(type) {
+			case []value:
+				limit = int64(cap(xv))
+			case string:
+				limit = int64(len(xv))
+			case *value:
+				limit = int64(len((*derefPtr(xv, "slice")).(array)))
+			}
+			lo = fr.concretize(lo, limit, "slice bound")
+			hi = fr.concretize(hi, limit, "slice bound")
+			mx = fr.concretize(mx, limit, "slice bound")
+		}
+		fr.env[instr] = slice(x, lo, hi, mx)
 
 	case *ssa.Return:
 		switch len(instr.Results) {
@@ -304,7 +347,11 @@ func visitInstr(fr *frame, instr ssa.Instruction) continuation {
 	case *ssa.MakeSlice:
 		capv, lenv := fr.get(instr.Cap), fr.get(instr.Len)
 		if isSymScalar(capv) || isSymScalar(lenv) {
-			panic(abortPath{"unsupported", "make([]T, symbolic)"})
+			// bounded concretisation: sizes 0..256 are enumerated
+			lenv = fr.concretize(lenv, 256, "make length")
+			if _, still := capv.(symInt); still {
+				capv = lenv
+			}
 		}
 		n := asInt64(capv)
 		if n < 0 || n > 1<<24 {
@@ -420,6 +467,24 @@ func prepareCall(fr *frame, call *ssa.CallCommon) (fn value, args []value) {
 		fn = v
 	} else {
 		recv := v.(iface)
+		if recv.t == nil && call.Value.Type().String() == "reflect.Type" {
+			// reflection is opaque (reflect.TypeOf yields nil): methods of the nil
+			// Type yield zero values so that package-level type tables initialise
+			res := call.Signature().Results()
+			return &nativeFunc{name: "reflect.Type(nil)." + call.Method.Name(), f: func(fr *frame, args []value) value {
+				switch res.Len() {
+				case 0:
+					return nil
+				case 1:
+					return zero(res.At(0).Type())
+				}
+				t := make(tuple, res.Len())
+				for k := range t {
+					t[k] = zero(res.At(k).Type())
+				}
+				return t
+			}}, nil
+		}
 		if recv.t == nil {
 			panic(runtimePanic("invalid memory address or nil pointer dereference (method call on nil interface)"))
 		}
